@@ -1,8 +1,9 @@
 // Worker of check C11: host selection offers each live node once, nearest and replicas first.
 //
 // suiteSequential is the sequential (mode B) part: exhaustive enumeration of cluster
-// states x policies x queries. A concurrent part (policy methods racing with Pick under
-// a controlled scheduler) is a separate sub-suite to be added next to it in main().
+// states x policies x queries. suiteOverlap (overlap.go) enumerates two overlapping iterations
+// on one policy with every shuffle outcome dictated. The concurrent part (policy methods racing
+// with Pick under a controlled scheduler) is the companion worker in ../mc.
 package main
 
 import (
@@ -15,9 +16,19 @@ import (
 var r *report.Run
 
 func main() {
+	if spec := os.Getenv(overlapEnv); spec != "" {
+		// a shard process of the overlapping-iterations sub-suite (overlap.go): prints its result as JSON
+		overlapChildMain(spec)
+		return
+	}
 	r = report.New("C11", "exploration")
+	if err := calibrate(); err != nil {
+		r.Infra("scripted random source: %v", err)
+		os.Exit(r.Finish(false))
+	}
+	waitOverlap := suiteOverlapStart() // shard processes, run next to the sequential suite
 	exhaustive := suiteSequential()
-	// further sub-suites (e.g. suiteConcurrent) go here; each returns whether it completed its space
+	exhaustive = waitOverlap() && exhaustive
 	os.Exit(r.Finish(exhaustive))
 }
 
